@@ -209,25 +209,73 @@ def r2_normalisation(rep, src, M):
         rep.ok('C02.R2', f.site, 'lines are decoded before matching', M.linevar, nontrivial=False)
     else:
         rep.fail('C02.R2', f.site, 'lines are decoded before matching', 'the reader regexes are applied to %s, not to decoder.decode(<line>)' % M.linevar, where=f.where)
-    # whole-text input is split into lines first
+    # whole-text input is split into lines first: on every path (helpers inlined, locals substituted away) on which the input may
+    # be a str / bytes object, the input reaches an iteration or a line consumer only as <input>.splitlines()
+    INSPECT = {'isinstance', '_has_fileno', 'hasattr', 'type', 'len', 'id', 'callable'}
     for site in ('deb822:Deb822._internal_parser', 'deb822:Deb822.iter_paragraphs'):
         g = src.func(site)
         rep.saw_func(g)
         param = g.params()[1]
-        tests = [n for n in ast.walk(g.node) if isinstance(n, ast.If) and isinstance(n.test, ast.Call) and norm(n.test.func) == 'isinstance'
-                 and norm(n.test.args[0]) == param]
-        kinds = set()
-        for t in tests:
-            tn = norm(t.test.args[1])
-            split = any(isinstance(c, ast.Call) and isinstance(c.func, ast.Attribute) and c.func.attr == 'splitlines'
-                        and norm(c.func.value) == param for s in t.body for c in ast.walk(s))
-            if split:
-                kinds |= {k for k in ('str', 'bytes') if k in tn}
-        if kinds == {'str', 'bytes'}:
-            rep.ok('C02.R2', site, 'str and bytes text are split into lines', 'splitlines() under isinstance(%s, ...)' % param, nontrivial=False)
+        gn, _ = normalize.inline_helpers(g, depth=2)
+
+        def loop_handler(en, st, path, param=param):
+            # loops are summarised; their iteration source is an effect of the path
+            it = paths.subst(st.iter, path.env) if isinstance(st, ast.For) else None
+            if it is not None:
+                path.events.append(('effect', ast.Expr(value=ast.Call(func=ast.Name(id='iter', ctx=ast.Load()), args=[it], keywords=[])), st))
+            for n_ in paths._assigned(st):
+                path.env[n_] = paths._opaque('assigned in a loop', st)
+            sub = paths.Enumerator(en.folder, loop_handler)
+            p0 = paths.Path()
+            p0.env = dict(path.env)
+            for q in sub.run(st.body, [p0]):
+                path.events.extend(q.events)
+            return [path]
+        ps = paths.function_paths(gn, paths.Folder(paths.module_consts(g.module, g.cls or '')), loop_handler, max_paths=20000)
+        rep.analysed['paths'] += len(ps)
+        bad = {}
+        n_split = 0
+        for p_ in ps:
+            if p_.outcome[0] == 'raise':
+                continue
+            maybe = {'str': True, 'bytes': True}
+            for t_, pol in p_.conds:
+                if isinstance(t_, ast.Call) and norm(t_.func) == 'isinstance' and len(t_.args) == 2 and norm(t_.args[0]) == param:
+                    names = {norm(x) for x in (t_.args[1].elts if isinstance(t_.args[1], ast.Tuple) else [t_.args[1]])}
+                    for k in maybe:
+                        if pol and k not in names:
+                            maybe[k] = False       # it is one of the other types
+                        if not pol and k in names:
+                            maybe[k] = False
+                if pol and isinstance(t_, ast.Call) and t_.args and norm(t_.args[0]) == param and \
+                        (norm(t_.func) == '_has_fileno' or (norm(t_.func) == 'hasattr' and len(t_.args) == 2 and norm(t_.args[1]) in ("'fileno'", "'read'", "'readline'"))):
+                    maybe = {'str': False, 'bytes': False}       # an object with a file descriptor / file methods is not a text
+            if not any(maybe.values()):
+                continue
+            trees = [ev[1] for ev in p_.events if ev[0] in ('effect', 'loop')] + [ev[2] for ev in p_.events if ev[0] == 'store'] + list(p_.env.values()) \
+                + ([p_.outcome[1]] if p_.outcome[1] is not None else [])
+            for tr in trees:
+                par = paths.parents(tr)
+                for n_ in ast.walk(tr):
+                    if not (isinstance(n_, ast.Name) and n_.id == param):
+                        continue
+                    up = par.get(id(n_))
+                    if isinstance(up, ast.Attribute) and up.attr == 'splitlines':
+                        n_split += 1
+                        continue
+                    if isinstance(up, ast.Call) and n_ in up.args and norm(up.func) in INSPECT:
+                        continue
+                    if isinstance(up, ast.Attribute):
+                        continue      # another method / attribute of the object, not an iteration of it
+                    for k, v in maybe.items():
+                        if v:
+                            bad.setdefault(k, 'on the path [%s] the input is used as `%s`' % (p_.describe()[:100], norm(up)[:60] if up is not None else param))
+        if not bad and n_split:
+            rep.ok('C02.R2', site, 'str and bytes text are split into lines', '%d paths; a str/bytes input is only used through splitlines()' % len(ps))
         else:
             rep.fail('C02.R2', site, 'str and bytes text are split into lines',
-                     'whole-text input of type %s is iterated character-wise instead of line-wise' % sorted({'str', 'bytes'} - kinds), where=g.where)
+                     'whole-text input of type %s is iterated character-wise instead of line-wise: %s' % (sorted(bad) or ['str', 'bytes'], next(iter(bad.values()), 'no splitlines()')),
+                     where=g.where)
     # split_gpg_and_payload: every payload line is stripped of CR/LF and str lines are encoded -- decided on the paths of the
     # loop body with locals substituted away (conditional expressions, flags and guard clauses give the same literals)
     g = src.func('deb822:Deb822.split_gpg_and_payload')
